@@ -100,6 +100,9 @@ class Ctx:
         self.evidence_dir = os.path.join(VERIF, "evidence") if REPO == "/repo" else os.path.join(self.build, "evidence")
         self.replays = os.path.join(self.evidence_dir, "replays")
         os.makedirs(self.replays, exist_ok=True)
+        for f in os.listdir(self.replays):      # replay files of earlier runs of this check are stale
+            if f.startswith(pid + "-") and f.endswith(".json"):
+                os.remove(os.path.join(self.replays, f))
         self.obligations = 0
         self.discharged = 0
         self.checker_cmds: list[str] = []
@@ -146,10 +149,6 @@ class Ctx:
         each check verifies the .vo files it depends on in prove()."""
         rc, out, err = sh(f"{VERIF}/bin/setup 2>&1 | tail -30", timeout=3300)
         self.setup_tail = out[-3000:]
-        gate = grep_gate([COQ])
-        if gate:
-            self.broken("axiom-gate", "forbidden token in coq/: " + "; ".join(gate[:5]))
-            return False
         return True
 
     def coqc(self, path: str, timeout=300):
@@ -167,6 +166,11 @@ class Ctx:
             v = os.path.join(THEORIES, th)
             n = count_obligations(v)
             self.obligations += n
+            gate = grep_gate([v])
+            if gate:
+                ok_all = False
+                self.broken("axiom-gate:" + th, "; ".join(gate[:5]))
+                continue
             if os.path.exists(v + "o") and os.path.getmtime(v + "o") >= os.path.getmtime(v):
                 self.discharged += n
             else:
@@ -350,13 +354,14 @@ def finish(ctx: Ctx):
                        "what": d["what"], "replay": d["replay"],
                        "broken_obligations_or_ties": [b["name"] for b in ctx.brokens]}, f, indent=1, default=str)
         lines.append(f"VIOLATION property={ctx.pid} replay={path}")
-    if ctx.brokens and not violations:
-        nviol += 1
+    if ctx.brokens:
         path = os.path.join(ctx.replays, f"{ctx.pid}-broken.json")
         with open(path, "w") as f:
-            json.dump({"property": ctx.pid, "kind": "no-failing-input-found",
+            json.dump({"property": ctx.pid, "kind": "no-failing-input-found" if not violations else "broken-with-failing-input",
                        "no_longer_checks": ctx.brokens}, f, indent=1, default=str)
-        lines.append(f"VIOLATION property={ctx.pid} replay={path} no-failing-input-found")
+        if not violations:
+            nviol += 1
+            lines.append(f"VIOLATION property={ctx.pid} replay={path} no-failing-input-found")
     cov = dict(ctx.coverage)
     cov.setdefault("samples", ctx.samples or ["(no sample recorded)"])
     cov["t1_facts"] = ctx.t1_facts
